@@ -18,7 +18,9 @@ ASSUMPTIONS = ["Layer P models CPython's operators (pysem)",
                "the theorem is about the model's Err sites; a raise the model does not have is found only by the correspondence / oracle runs"]
 
 NASTY = [0, 0.0, -0.0, None, "", [], {}, "%z", "100%", "%(k)s", "%d", "abc", " 3 ", "1_0", "true", "TRUE", "2.5", "é",
-         2 ** 63 - 1, -1, 1e-8, [None], {None: None}, {"a": {}}, [[]], True, False, "%", "%c", "%s %s"]
+         2 ** 63 - 1, -1, 1e-8, [None], {None: None}, {"a": {}}, [[]], True, False, "%", "%c", "%s %s",
+         # strings that a more lenient conversion than int() / the bool table might read (and choke on)
+         "inf", "-inf", "Infinity", "nan", "1e999", "-1e400", "3.0", " +infinity ", "0x10", "١٢"]
 
 
 def nasty_doc(g, depth=3):
@@ -95,6 +97,7 @@ def run(tier, seed, model_ok, spec_ok, replay=None):
     rg.cg_wrong = 0
     n = 400 if tier == "quick" else 12000
     cases, direct = [], []
+    spec_n = 0
     for i in range(n):
         doc = nasty_doc(g) if i % 2 == 0 else g.document(4, 4)
         k = g.r.choice([1, 1, 2, 3])
@@ -107,6 +110,23 @@ def run(tier, seed, model_ok, spec_ok, replay=None):
         if g.r.random() < 0.3:
             rts.append(RuleT(PathT([g.r.choice([MapT(), ListT(), Prim("a"), Prim(0), Prim(1), Prim(True), Prim(2.5)]) for _ in
                                     range(g.r.randint(0, 2))]), Leaf("Value", "truthy"), [g.r.choice(["int", "bool"])]))
+        if g.r.random() < 0.25:
+            # the same kind of cast rule declared in a SPEC (cast types by name: the conversion functions come from the library's own
+            # lookup table, not from the caller): validation of a hostile document must return, whichever function the table names
+            parts = [g.r.choice([{"type": "map_value"}, {"type": "list_value"}, {"type": "map_or_list_value"}, "a", 0, 1])
+                     for _ in range(g.r.randint(0, 2))]
+            rs = {"path": parts, "condition": {"value.truthy": None} if g.r.random() < 0.5 else {"value.dtype.in": ["int", "bool", "str"]},
+                  "cast": {"str": g.r.choice(["int", "bool"])}}
+            v = sc.valida()
+
+            def spec_route():
+                return v.Schema([v.Rule.from_spec(copy_value(rs))]).validate(copy_value(doc)).is_valid
+            from .. import coqenc as E
+            o = E.run_outcome(spec_route)
+            spec_n += 1
+            if o[0] == "exc":
+                direct.append({"kind": "direct", "what": f"Schema.validate raised {o[1]} (rule declared in a spec)", "schema": [repr(rs)[:300]],
+                               "doc": jval(doc)})
         c = sc.make_case(rts, doc)
         if not c:
             continue
